@@ -284,20 +284,49 @@ Inductive from_ty := TyTuple (k : nat) | TyOther.
 (** utils.rs:2202-2284 FieldsExt::validate_type; returns the length of the iterator it yields *)
 Inductive vt_result := VOk (ops : list op) (iter_len : nat) | VErr (ops : list op).
 
+(* the subtractions of each match arm are NOT written here by hand: Gen.validate_type_subs is re-extracted from
+   the source on every run (arm, left operand, right operand), so a changed operand changes this model *)
+Definition vt_eval (n k : nat) (o : vt_operand) : option nat :=
+  match o with VSelfLen => Some n | VElemsLen => Some k | VConst c => Some c | VUnknown => None end.
+
+Definition vt_branch_eqb (a b : vt_branch) : bool :=
+  match a, b with
+  | VBGreater, VBGreater | VBLess, VBLess | VBEqual, VBEqual | VBOther, VBOther | VBNone, VBNone => true
+  | _, _ => false
+  end.
+
+Definition vt_subs (b : vt_branch) (n k : nat) : list op :=
+  flat_map (fun e => match e with
+                     | (b', l, r) =>
+                         if vt_branch_eqb b b' then
+                           [match vt_eval n k l, vt_eval n k r with
+                            | Some x, Some y => OSub x y
+                            | _, _ => OUnreachable          (* an operand the translator does not know *)
+                            end]
+                         else []
+                     end) validate_type_subs.
+
+(* a subtraction outside the three arms that have one today is not placed by the model: flag it *)
+Definition vt_unplaced : list op :=
+  flat_map (fun e => match e with
+                     | (VBEqual, _, _) | (VBNone, _, _) => [OUnreachable]
+                     | _ => []
+                     end) validate_type_subs.
+
 Definition validate_type (n : nat) (ty : from_ty) : vt_result :=
   match ty with
   | TyTuple k =>
       if 1 <? n then
         match Nat.compare n k with
-        | Gt => VErr [OSub n k; OSub n k; OSub n k]          (* :2219 :2220 :2229 *)
-        | Lt => VErr [OSub k n; OSub k n]                    (* :2245 :2246 *)
-        | Eq => VOk [] k
+        | Gt => VErr (vt_unplaced ++ vt_subs VBGreater n k)        (* self.len() > elems.len() *)
+        | Lt => VErr (vt_unplaced ++ vt_subs VBLess n k)           (* self.len() < elems.len() *)
+        | Eq => VOk vt_unplaced k
         end
-      else if (n =? 1) && (k =? 0) then VErr []           (* :2263-2272 a single field needs exactly one type *)
-      else VOk [] k
+      else if (n =? 1) && (k =? 0) then VErr vt_unplaced      (* a single field needs exactly one type *)
+      else VOk vt_unplaced k
   | TyOther =>
-      if 1 <? n then VErr [OSub n 1]                         (* :2269 *)
-      else VOk [] 1
+      if 1 <? n then VErr (vt_unplaced ++ vt_subs VBOther n 0)     (* `other if self.len() > 1` *)
+      else VOk vt_unplaced 1
   end.
 
 (** from.rs:268-319 expand_fields: how often [wrap] is called, and the two guarded arms *)
@@ -747,6 +776,20 @@ Definition classification : list (string * cls) := [
   ("unwrap.rs|expand|format_ident|a86a4e59", ProbeOnly);
   ("unwrap.rs|expand|format_ident|e3cdcb4b", ProbeOnly);
   ("unwrap.rs|expand|format_ident|ffc23e12", ProbeOnly);
+  (* additions / increments (an overflow needs a usize or i32 counter to reach its maximum) *)
+  (* error.rs:403 infer_source_field  --  backtrace + 1 *)
+  ("error.rs|infer_source_field|arith|17498fbd", Unreachable "backtrace is a position among the enabled fields (parse_field_impl, < fields.len() = 2 here): backtrace + 1 <= 2");
+  (* fmt/mod.rs:496,501 parse_fmt_string  --  n += 1 *)
+  ("fmt/mod.rs|parse_fmt_string|arith|98c4e639", Unreachable "n counts the placeholders of the literal seen so far, at most two increments per placeholder: n <= 2 * (byte length of the literal)");
+  ("fmt/mod.rs|parse_fmt_string|arith|98c4e639#1", Unreachable "n counts the placeholders of the literal seen so far, at most two increments per placeholder: n <= 2 * (byte length of the literal)");
+  (* from.rs:223 expand  --  i += 1 *)
+  ("from.rs|expand|arith|a37fd462", Unreachable "i is incremented once per field by expand_fields: i <= number of fields");
+  (* mul_assign_like.rs:14 expand  --  .. . to_string ( ) + '_assign' *)
+  ("mul_assign_like.rs|expand|arith|85e2ad40", Unreachable "String + &str concatenation, not integer arithmetic");
+  (* parsing.rs:156 balanced_pair  --  count += 1 *)
+  ("parsing.rs|balanced_pair|arith|5230535b", Unreachable "count is an i32 incremented at most once per token tree consumed: count <= 1 + number of token trees of the attribute, far below i32::MAX (2^31 tokens)");
+  (* try_from.rs:116 to_tokens  --  inc += 1 *)
+  ("try_from.rs|to_tokens|arith|a905ebf0", Unreachable "inc is a usize incremented once per variant and reset at every explicit discriminant: inc <= number of variants; it is only printed (Literal::usize_unsuffixed), never added to a discriminant at expansion time");
   (* into.rs:363 parse  --  convs . tys . push_punct ( comma ) *)
   ("into.rs|parse|vecop|a6902915", Discharged "C18_into_loop_safe");
   (* into.rs:396 parse  --  out . owned . tys . push_value ( ty ) *)
